@@ -46,7 +46,7 @@ def mkCell (kind : String) (xs : List Float) : Option (Cell Float) :=
   | "logpar", [a, b, c] => some (.logpar a b c)
   | "unityT", [] => some (.unityT ⟨-(1.0 / 0.0), 1.0 / 0.0⟩)
   | "box", [t0, tw] => some (.box (boxNew t0 tw))
-  | "gauss", [t0, s, tol] => some (.gauss (gaussNew t0 s tol))
+  | "gauss", [t0, s, tol] => (gaussNewChecked t0 s tol).map .gauss
   | _, _ => none
 
 def pPD (s : String) : PDict Float :=
@@ -73,8 +73,9 @@ def pure' (line : List String) : Option String :=
   | ["boxint", s, e, t1, t2] => some (fF (boxIntegral ⟨pF s, pF e⟩ (pF t1) (pF t2)))
   | ["boxcdf", s, e, t] => some (fF (boxCdf ⟨pF s, pF e⟩ (pF t)))
   | ["gnew", t0, sg, tol] =>
-      let g := gaussNew (pF t0) (pF sg) (pF tol)
-      some s!"{fF g.tStart},{fF g.tStop},{fF g.sigma},{fF g.tol}"
+      match gaussNewChecked (pF t0) (pF sg) (pF tol) with
+      | some g => some s!"{fF g.tStart},{fF g.tStop},{fF g.sigma},{fF g.tol}"
+      | none => some "none"
   | ["gcall", s, e, sg, t] => some (fF (gaussCall ⟨pF s, pF e, pF sg, 0.0⟩ (pF t)))
   | ["gargs", s, e, sg, t1, t2] =>
       let g : Gauss Float := ⟨pF s, pF e, pF sg, 0.0⟩
@@ -109,6 +110,20 @@ def stepLine (h : Heap Float) (line : String) : Heap Float × String :=
       else (h, "ERR")
   | ["move", i, dt] => match h.move (pN i) (pF dt) with
       | some h' => (h', "ok")
+      | none => (h, "ERR")
+  | ["moveu", i, dt, u] => match h.moveU (pN i) (pF dt) (pU u) with
+      | some h' => (h', "ok")
+      | none => (h, "ERR")
+  | ["copyset", i, pd] => match h.copySet pn (pN i) (pPD pd) with
+      | some (h', j) => (h', toString j)
+      | none => (h, "ERR")
+  | ["call", i, ra, dec, e, t, ua, ue, ut] =>
+      let oL (x : String) : Option (List Float) := if x == "N" then none else some (pList pF x)
+      let ang := match oL ra, oL dec with
+        | some a, some d => some (a.zip d)
+        | _, _ => none
+      match h.call (pN i) ang (oL e) (oL t) (pU ua) (pU ue) (pU ut) with
+      | some r => (h, fListD fF r.flatten.flatten)
       | none => (h, "ERR")
   | ["copy", i] => match h.copy (pN i) with
       | some (h', j) => (h', toString j)
